@@ -8,7 +8,9 @@
       x/vesting/types/schedule.go                    ReadSchedule, ReadPastPeriodCount
       x/staking/keeper/msg_server.go                 validateDelegationAmountNotUnvested (Delegate, CreateValidator)
       x/vesting/keeper/msg_server.go                 transferClawback, addGrant (tracking reset; the merged schedule
-                                                     itself is an input, see below)
+                                                     itself is an input, see below), ConvertIntoVestingAccount incl.
+                                                     delegateVestedCoins (the Stake option: stakingKeeper.Delegate
+                                                     called directly with the vested part of the message's grant)
       cosmos-sdk x/bank/keeper                       subUnlockedCoins (every account debit: SendCoins,
                                                      SendCoinsFromAccountToModule, InputOutputCoins, BurnCoins after
                                                      the EVM's SetBalance, fee deduction, module deposits),
@@ -262,7 +264,9 @@ Inductive lkx_op :=
 | LxBase (o : lk_op) (signer : N)      (* signer: of MsgClawback / MsgCreateClawbackVestingAccount{Merge}; ignored otherwise *)
 | LxConvert                            (* MsgConvertVestingAccount *)
 | LxConvertInto (signer : N) (merge : bool) (g start' end' : Z) (lockup' vesting' : list lk_period)
-| LxUpdateFunder (signer new : N).
+| LxUpdateFunder (signer new : N)
+| LxConvertIntoStake (signer : N) (merge : bool) (g start' end' : Z) (lockup' vesting' : list lk_period)
+                     (gstart : Z) (gv : list lk_period).   (* MsgConvertIntoVestingAccount{Stake}: gstart, gv = the message's own start time and vesting periods *)
 
 Definition lk_needs_funder (o : lk_op) : bool :=
   match o with LkClawback _ _ => true | LkAddGrant _ _ _ _ _ => true | _ => false end.
@@ -298,6 +302,60 @@ Definition lk_into_vesting (s : lk_state) (g start' end' : Z) (lockup' vesting' 
   if negb (lk_wf_b a') then (s, LK_SCHEDULE) else
   (mklk a' (lk_bal s + g) (lk_deleg s) (lk_unb s) (lk_now s) (lk_bond s), LK_OK).
 
+(** ---- MsgConvertIntoVestingAccount{Stake:true} ----
+    x/vesting/keeper/msg_server.go  ConvertIntoVestingAccount: ApplyVestingSchedule, SendCoins(funder -> account), then
+    delegateVestedCoins: the amount to stake is the vested part of the grant CARRIED BY THE MESSAGE at the block time,
+
+        DisjunctPeriods(start, start, periods, periods)  =  (start, start + sum of the lengths, _)
+        ReadSchedule(start, start + sum of the lengths, periods, TotalAmount(periods), blockTime)
+
+    (bond denomination), and it is handed to stakingKeeper.Delegate DIRECTLY: the staking message server's guard
+    validateDelegationAmountNotUnvested is not on this path.  What remains is the SDK's DelegateCoins (balance >= amount)
+    followed by TrackDelegation.  A failure anywhere fails the whole message. *)
+Definition lk_len (ps : list lk_period) : Z := fold_right (fun p acc => fst p + acc) 0 ps.
+
+Definition lk_grant_vested (gstart : Z) (gv : list lk_period) (now : Z) : Z :=
+  lk_read_schedule gstart (gstart + lk_len gv) gv (lk_sum gv) now.
+
+(** stakingKeeper.Delegate(subtractAccount = true) for a vesting account: no Haqq guard *)
+Definition lk_stake (s : lk_state) (x : Z) : lk_state * N :=
+  if negb (lk_bond s) then (s, LK_INVALID) else
+  if x <=? 0 then (s, LK_INVALID) else           (* "no vested coins to delegate immediately" *)
+  if lk_bal s <? x then (s, LK_INSUFFICIENT) else
+  let a := lk_a s in
+  (mklk (mklka (lk_orig a) (lk_lockup a) (lk_vesting a) (lk_start a) (lk_end a) (lk_dv a) (lk_df a + x))
+        (lk_bal s - x) (lk_deleg s + x) (lk_unb s) (lk_now s) (lk_bond s), LK_OK).
+
+(** which amount is staked: the vested part of the grant in the message (the code), or the vested amount of the
+    whole account after the schedule was applied (not the code; kept for the refutation) *)
+Inductive lk_stake_mode := LkStakeGrant | LkStakeAccount.
+
+Definition lk_stake_amount (m : lk_stake_mode) (a' : lk_acct) (gstart : Z) (gv : list lk_period) (now : Z) : Z :=
+  match m with LkStakeGrant => lk_grant_vested gstart gv now | LkStakeAccount => lk_vested a' now end.
+
+(** the merged vesting schedule [vesting'] is an input (its construction is property C09: the union of the events of
+    both schedules).  What the stake step needs from it, checked here: at the block time the merged schedule has
+    vested at least what the old schedule had vested plus what the grant in the message has vested. *)
+Definition lk_stake_admissible (m : lk_stake_mode) (oldv x newv : Z) : bool :=
+  match m with LkStakeGrant => oldv + x <=? newv | LkStakeAccount => true end.
+
+Definition lkx_into_stake (m : lk_stake_mode) (s : lkx_state) (signer : N) (merge : bool) (g start' end' : Z)
+    (lockup' vesting' : list lk_period) (gstart : Z) (gv : list lk_period) : lkx_state * N :=
+  let c := lx_s s in
+  let oldv := if lx_vesting s then lk_vested (lk_a c) (lk_now c) else 0 in
+  let r := if lx_vesting s then
+             if negb merge then (c, LK_INVALID) else
+             if negb (signer =? lx_funder s)%N then (c, LK_UNAUTHORIZED) else
+             lk_add_grant c g start' end' lockup' vesting'
+           else lk_into_vesting c g start' end' lockup' vesting' in
+  if negb (snd r =? LK_OK)%N then (s, snd r) else
+  let c1 := fst r in
+  let x := lk_stake_amount m (lk_a c1) gstart gv (lk_now c) in
+  if negb (lk_stake_admissible m oldv x (lk_vested (lk_a c1) (lk_now c))) then (s, LK_SCHEDULE) else
+  let r2 := lk_stake c1 x in
+  if (snd r2 =? LK_OK)%N then (mklkx (fst r2) true (if lx_vesting s then lx_funder s else signer), LK_OK)
+  else (s, snd r2).
+
 Definition lkx_step_g (gd : lk_guard) (s : lkx_state) (o : lkx_op) : lkx_state * N :=
   let c := lx_s s in
   match o with
@@ -322,6 +380,7 @@ Definition lkx_step_g (gd : lk_guard) (s : lkx_state) (o : lkx_op) : lkx_state *
       if negb (signer =? lx_funder s)%N then (s, LK_UNAUTHORIZED) else
       if (signer =? new)%N then (s, LK_INVALID) else     (* ValidateBasic: new funder = current funder *)
       (mklkx c true new, LK_OK)
+  | LxConvertIntoStake signer merge g st e l v gst gv => lkx_into_stake LkStakeGrant s signer merge g st e l v gst gv
   end.
 
 (** the code *)
@@ -345,7 +404,9 @@ Inductive lk_op2 :=
 | L2AddGrant (signer : N) (g0 g1 start' end' : Z) (l0 l1 v0 v1 : list lk_period)
 | L2Convert
 | L2ConvertInto (signer : N) (merge : bool) (g0 g1 start' end' : Z) (l0 l1 v0 v1 : list lk_period)
-| L2UpdateFunder (signer new : N).
+| L2UpdateFunder (signer new : N)
+| L2ConvertIntoStake (signer : N) (merge : bool) (g0 g1 start' end' : Z) (l0 l1 v0 v1 : list lk_period)
+                     (gstart : Z) (gv0 : list lk_period).   (* only the bond denomination is staked *)
 
 Definition lk_pair : Type := (lkx_state * lkx_state)%type.
 
@@ -382,6 +443,8 @@ Definition lk_step2 (s : lk_pair) (o : lk_op2) : lk_pair * bool :=
   | L2ConvertInto sg m g0 g1 st e l0 l1 v0 v1 =>
       lk_both s (lkx_step s0 (LxConvertInto sg m g0 st e l0 v0)) (lkx_step s1 (LxConvertInto sg m g1 st e l1 v1))
   | L2UpdateFunder sg nw => lk_both s (lkx_step s0 (LxUpdateFunder sg nw)) (lkx_step s1 (LxUpdateFunder sg nw))
+  | L2ConvertIntoStake sg m g0 g1 st e l0 l1 v0 v1 gst gv0 =>
+      lk_both s (lkx_step s0 (LxConvertIntoStake sg m g0 st e l0 v0 gst gv0)) (lkx_step s1 (LxConvertInto sg m g1 st e l1 v1))
   end.
 
 Record lk_obs := mklkobs {
